@@ -17,24 +17,30 @@
         exp_fin(*self) ==> exp_fin(r),
         forall|env: Env| sem(*self, env) is Some ==> #[trigger] sem(r, env) == sem(*self, env),
 @fn Exp::simplify @keep-arms
-    Exp::BinOp / BinOp::Add
-    Exp::BinOp / BinOp::Sub
-    Exp::BinOp / BinOp::Mul
-    Exp::BinOp / BinOp::Div
+    Exp::UnOp / UnOp::Neg
+    Exp::Abs
 @fn Exp::simplify @entry
     proof { lemma_exp_fin(*self); lemma_simp_arith(); }
-@fn Exp::simplify @after "let rhs = rhs.simplify();"
-    let ghost l1 = lhs;
-    let ghost r1 = rhs;
-    let ghost a0 = *self->BinOp_1;
-    let ghost b0 = *self->BinOp_2;
-    proof { lemma_exp_fin(l1); lemma_exp_fin(r1); }
-@fn Exp::simplify @tail 1-17
+@fn Exp::simplify @after "let exp = exp.simplify();" #1
+    let ghost i1 = exp;
+    let ghost i0 = *self->UnOp_1;
+    proof { lemma_exp_fin(i1); }
+@fn Exp::simplify @tail 2-3
     proof {
-        lemma_exp_fin(r__); lemma_exp_fin(*r__->BinOp_1); lemma_exp_fin(*r__->BinOp_2);
+        lemma_exp_fin(r__); lemma_exp_fin(*r__->UnOp_1);
         assert forall|env: Env| sem(*self, env) is Some implies #[trigger] sem(r__, env) == sem(*self, env) by {
-            assert(sem(a0, env) is Some && sem(b0, env) is Some);
-            assert(sem(l1, env) == sem(a0, env) && sem(r1, env) == sem(b0, env));
+            assert(sem(i0, env) is Some); assert(sem(i1, env) == sem(i0, env));
+        }
+    }
+@fn Exp::simplify @after "let exp = exp.simplify();" #2
+    let ghost j1 = exp;
+    let ghost j0 = *self->Abs_0;
+    proof { lemma_exp_fin(j1); }
+@fn Exp::simplify @tail 5-6
+    proof {
+        lemma_exp_fin(r__); lemma_exp_fin(*r__->Abs_0);
+        assert forall|env: Env| sem(*self, env) is Some implies #[trigger] sem(r__, env) == sem(*self, env) by {
+            assert(sem(j0, env) is Some); assert(sem(j1, env) == sem(j0, env));
         }
     }
 @raw
